@@ -515,6 +515,44 @@ func (b *builder) strLit(t *Term) string {
 		}
 		bs = append(bs, byte(x))
 	}
+	// make the bytes consistent with the runes the model says are decoded from this string
+	var runeTerms []*Term
+	seen := map[int]bool{}
+	collectSyms(b.pb.asserts, func(x *Term) {
+		if x.Head == "utf8.rune" && len(x.Args) == 1 && x.Args[0].Head == "gs.sub" && x.Args[0].Args[0] == t && !x.open && !seen[x.id] {
+			seen[x.id] = true
+			runeTerms = append(runeTerms, x)
+		}
+		if x.Head == "specRuneAt" && len(x.Args) == 2 && x.Args[0] == t && !x.open && !seen[x.id] {
+			seen[x.id] = true
+			runeTerms = append(runeTerms, x)
+		}
+	})
+	for _, rt := range runeTerms {
+		loT := rt.Args[0]
+		if rt.Head == "specRuneAt" {
+			loT = rt.Args[1]
+		} else {
+			loT = rt.Args[0].Args[1]
+		}
+		lo, ok := b.intOf(loT)
+		if !ok || lo < 0 || lo >= n {
+			continue
+		}
+		if !b.pb.ask([]*Term{rt}, nil) {
+			continue
+		}
+		v, _ := b.val(rt)
+		rv, ok := parseBV(v)
+		if !ok || rv > 0x10FFFF || (rv >= 0xD800 && rv <= 0xDFFF) {
+			continue
+		}
+		enc := []byte(string(rune(rv)))
+		if int(lo)+len(enc) > len(bs) {
+			continue
+		}
+		copy(bs[lo:], enc)
+	}
 	return strconv.Quote(string(bs))
 }
 
